@@ -130,6 +130,9 @@ class PlatformService():
             logger.info('_crt_service_callback')
             # If the sink contains a magic string, get the protocol version,
             # otherwise -1
+            if self._callback is None:
+                # Not (or no longer) fetching: a duplicated or late reply
+                return
             if pk.data[:18].decode('utf8') == 'Bitcraze Crazyflie':
                 pk = CRTPPacket()
                 pk.set_header(CRTPPort.PLATFORM, VERSION_COMMAND)
@@ -139,13 +142,23 @@ class PlatformService():
             else:
                 self._protocolVersion = -1
                 logger.info('Protocol version (crt): {}'.format(self.get_protocol_version()))
-                self._callback()
+                self._platform_info_fetched()
 
     def _platform_callback(self, pk):
         if pk.channel == VERSION_COMMAND:
             logger.info('_platform_callback')
 
             if pk.data[0] == VERSION_GET_PROTOCOL:
+                if self._callback is None:
+                    # Not (or no longer) fetching: a duplicated or late reply
+                    return
                 self._protocolVersion = pk.data[1]
                 logger.info('Protocol version (platform): {}'.format(self.get_protocol_version()))
-                self._callback()
+                self._platform_info_fetched()
+
+    def _platform_info_fetched(self):
+        # Hand the information over once per fetch, a duplicated reply must
+        # not start the connection setup again
+        callback = self._callback
+        self._callback = None
+        callback()
